@@ -28,12 +28,20 @@ class Unmodelled(Exception):
 def cb(b): return 'true' if b else 'false'
 
 
-def run_driver(payload, timeout=900):
-    """tools/c19_driver.py in a fresh interpreter (it monkey-patches pony.orm.dbproviders.sqlite.sqlite and starts threads)."""
+def run_driver(payload, timeout=None):
+    """tools/c19_driver.py in a fresh interpreter (it monkey-patches pony.orm.dbproviders.sqlite.sqlite and starts threads).
+    Long lists of cases are run in chunks.  The time limits are backstops against a hung harness only (3 h per chunk): nothing is
+    ever classified by an expiring timeout - blocking is observed on the lock, and a slow machine only makes the run slower."""
     tmp = '/dev/shm/builder-c19-run' if os.path.isdir('/dev/shm') and os.access('/dev/shm', os.W_OK) else '/tmp/builder-c19-run'
     os.makedirs(tmp, exist_ok=True)
-    payload = dict(payload, tmp=tmp)
-    return vlib.run_impl('c19_driver.py', payload, timeout=timeout)
+    limit = 3 * 3600
+    cases = payload.get('cases')
+    if not isinstance(cases, list) or len(cases) <= 400:
+        return vlib.run_impl('c19_driver.py', dict(payload, tmp=tmp, total_timeout=limit), timeout=limit + 60)
+    out = []
+    for i in range(0, len(cases), 400):
+        out += vlib.run_impl('c19_driver.py', dict(payload, cases=cases[i:i + 400], tmp=tmp, total_timeout=limit), timeout=limit + 60)
+    return out
 
 
 def coq_event(ev):
